@@ -8,7 +8,7 @@ import (
 
 // Every generated function has these parameters; impure operands are calls of the functions declared
 // in Preamble (in differential programs they log their name and return values from a script).
-const Params = "a, b, c int, u, v uint, p, q float64, s, t string, k, l bool, xs []int, bs []byte, ms myStr, mi myInts, mm myMap, ma myArr, pa *myArr, w *wr, mf, mg myF, mc, mc2 myC, fa [2]myF, vv val, it *iter"
+const Params = "a, b, c int, u, v uint, p, q float64, s, t string, k, l bool, xs []int, bs []byte, ms myStr, mi myInts, mm myMap, ma myArr, pa *myArr, w *wr, mf, mg myF, mc, mc2 myC, fa [2]myF, vv val, it *iter, pe *myE"
 
 // Preamble for files that are only analysed (never run).
 const LintPreamble = `
@@ -33,6 +33,11 @@ type myInts []int
 type myMap map[int]string
 type myArr [3]int
 
+// a pointer type that implements error: a nil *myE stored in an error interface is a non-nil error
+type myE struct{}
+
+func (*myE) Error() string { return "myE" }
+
 type myErr struct{}
 
 func (myErr) Error() string { return "e" }
@@ -44,9 +49,17 @@ func fmf() myF { return 0 }
 
 type wr struct {
 	err error
-	buf []int
-	g   myF
+	buf   []int
+	g     myF
+	avail int
 }
+
+// conjuncts that return true and change what a neighbouring comparison reads
+func (w *wr) refill() bool { w.avail = 9; return true }
+
+var gn int
+
+func bumpG() bool { gn = 9; return true }
 
 func (w *wr) flush() { w.err = myErr{}; w.buf = []int{1} }
 func (w *wr) peek() int { return len(w.buf) }
@@ -75,6 +88,28 @@ type obj struct {
 var gf func(int) int = hi
 
 func hj(x int) int { return x * 3 }
+
+// a variadic function that is sensitive to the order of its arguments, a slice reversal, a linked list
+func vsum(xs ...int) int {
+	r := 0
+	for i, x := range xs {
+		r += (i + 1) * x
+	}
+	return r
+}
+
+func rev(xs []int) []int {
+	out := make([]int, len(xs))
+	for i, x := range xs {
+		out[len(xs)-1-i] = x
+	}
+	return out
+}
+
+type node struct {
+	v    int
+	next *node
+}
 
 func setG() { gxs = []int{1} }
 `
